@@ -45,7 +45,7 @@ func decoder[T any]() func([]byte) (core.Case, error) {
 
 // cli runs the CLI on the CRS root. How the global flags are spelled is varied deterministically (by a hash of the
 // command line): -d / --directory / --directory=, in front of or behind the sub-command, pointing at the root (absolute or relative to the working directory) or at a directory below it (from where the
-// root has to be found), with or without a log level. None of this may change
+// root has to be found), with or without a log level, with a few environment variables set to unusual values. None of this may change
 // what a command does, so every monitor also exercises these spellings.
 func cli(env *core.Env, root string, stdin []byte, args ...string) *sut.Result {
 	h := uint32(2166136261)
@@ -92,7 +92,17 @@ func cli(env *core.Env, root string, stdin []byte, args ...string) *sut.Result {
 	} else {
 		full = append(flags, args...)
 	}
-	return sut.Run(sut.Cmd{Bin: env.Bin, Args: full, Stdin: stdin, Dir: root})
+	// neither may the environment of the process (only what the tool has no business reading is varied)
+	var extra []string
+	switch (h >> 27) % 6 {
+	case 1:
+		extra = []string{"TMPDIR=/nonexistent-tmp-dir"}
+	case 2:
+		extra = []string{"HOME=/nonexistent-home", "LANG=tr_TR.UTF-8", "LC_ALL=tr_TR.UTF-8"}
+	case 3:
+		extra = []string{"GITHUB_ACTIONS=true", "TERM=dumb", "COLUMNS=20", "TZ=Pacific/Kiritimati"}
+	}
+	return sut.Run(sut.Cmd{Bin: env.Bin, Args: full, Stdin: stdin, Dir: root, Env: extra})
 }
 
 // cliAt runs the CLI without -d from the working directory cwd.
@@ -145,3 +155,21 @@ func perm(r *rand.Rand, n int) []int { return r.Perm(n) }
 func repeat(s string, n int) string { return strings.Repeat(s, n) }
 
 func removeFile(p string) error { return os.Remove(p) }
+
+// sameLines compares two files by the content of their lines: terminators (LF or CRLF) and the presence of the
+// final newline are not content. Used where the statement protects "the text of the other lines": a tool that keeps
+// CRLF or a missing final newline is as right as one that normalises them.
+func sameLines(got, want string) bool {
+	if got == want {
+		return true
+	}
+	norm := func(s string) string {
+		s = strings.TrimSuffix(s, "\n")
+		ls := strings.Split(s, "\n")
+		for i := range ls {
+			ls[i] = strings.TrimSuffix(ls[i], "\r")
+		}
+		return strings.Join(ls, "\n")
+	}
+	return norm(got) == norm(want)
+}
